@@ -102,6 +102,14 @@ class ChannelHook:
             pend.pop(eng.force(args[0]).oid, None)
             eng.state.ghost["removed_unclosed"] = pend
         me0 = getattr(eng, "self_under_verification", None)
+        if name in ("_flush_some", "_flush_some_if_lockable") and eng.cur_func.split("@")[0].endswith(".handle_write"):
+            # C12/C13: it is the I/O thread's flush that notices a dead client and tears the channel down (which releases a paused producer)
+            dc = (kwargs or {}).get("do_close")
+            if dc is None and args and len(args) > 1:
+                dc = args[1]
+            eng.oblige("%s/C12-the-io-thread-flush-may-tear-down-a-dead-connection" % eng.cur_func,
+                       eng.truth(eng.force(dc)) if dc is not None else z3.BoolVal(True),
+                       clause="handle_write() flushes with do_close true", kind="assert")
         if (name == "append" and qual.startswith("buffers.") and args and isinstance(eng.force(args[0]), VObj) and me0 is not None and me0.cls == CH
                 and eng.cur_func.split("@")[0].endswith("send_continue")):
             # C19: the interim response goes BEHIND everything already queued, i.e. into the last output buffer
@@ -135,6 +143,11 @@ class ChannelHook:
         if isinstance(ob, VList) and ob.lid == lst.lid:
             # C09: a buffer taken off the output queue (it may wrap the application's file) must be closed by whoever removed it
             v = eng.force(value)
+            if isinstance(v, VObj):
+                # C04: only a buffer whose bytes have all been sent may leave the queue (otherwise unsent bytes of a response are dropped)
+                view = eng.force(eng.getattr(v, "view"))
+                eng.oblige("%s/C04-only-a-drained-buffer-leaves-the-output-queue" % eng.cur_func, z3.Length(view.t) == 0,
+                           clause="len(<buffer popped from self.outbufs>.view) == 0", kind="assert")
             pend = dict(eng.state.ghost.get("removed_unclosed", {}))
             pend[getattr(v, "oid", id(v))] = True
             eng.state.ghost["removed_unclosed"] = pend
@@ -159,6 +172,13 @@ class ChannelHook:
         me = getattr(eng, "self_under_verification", None)
         if me is None or me.cls != CH:
             return
+        ob = eng.state.heap.get((me.oid, "outbufs"))
+        if isinstance(ob, VList) and ob.lid == lst.lid and op == "append" and eng.cur_func.split("@")[0].endswith(".write_soon"):
+            # C09/C12: a producer queues output (possibly the application's file) only on a channel it has seen connected while holding
+            # outbuf_lock -- teardown happens under that lock, so nothing is ever queued behind it
+            eng.oblige("%s/C09-output-is-queued-only-on-a-channel-seen-connected-under-the-lock" % eng.cur_func,
+                       eng.truth(eng.force(eng.state.heap[(me.oid, "connected")])),
+                       clause="self.connected (as read under the current hold of outbuf_lock) at every self.outbufs.append in write_soon()", kind="assert")
         r = eng.state.heap.get((me.oid, "requests"))
         if isinstance(r, VList) and r.lid == lst.lid:
             if (eng.role or "").rstrip("L") == "IO" and op not in ("append",) and eng.cur_func.split("@")[0].split(".")[-1] not in ("cancel",):
@@ -296,7 +316,8 @@ def install(reg):
                                        ("connected-only-cleared", "implies(self.connected, old(self.connected))"),
                                        ("no-teardown-without-do_close", "implies(not do_close, self.connected == old(self.connected))")],
                            modifies=["self.total_outbufs_len", "self.connected", "self.last_activity"]),
-               1: LoopSpec(invariants=[("total-never-grows", "self.total_outbufs_len <= old(self.total_outbufs_len)"), 
+               1: LoopSpec(invariants=[("C04-remaining-count-is-what-the-buffer-still-holds", "outbuflen == len(outbuf.view)"),
+                                       ("total-never-grows", "self.total_outbufs_len <= old(self.total_outbufs_len)"), 
                                        ("C09-every-buffer-taken-off-the-queue-is-closed", "removed_unclosed() == 0"),
                                        ("outbufs", "len(self.outbufs) >= 1"), ("sent-nonneg", "sent >= 0"),
                                        ("sent-means-shrunk-or-closed", "implies(sent == 0, self.total_outbufs_len == old(self.total_outbufs_len) or not self.connected)"),
